@@ -874,15 +874,14 @@ def _simplify_function_call(call: HplFunctionCall) -> HplExpression:
     elif fun.name == 'len':
         arg: HplExpression = _simplify(call.arguments[0])
         if isinstance(arg, HplSet):
-            return HplLiteral.number(len(arg.values))
+            # members that are not literals may turn out to be equal
+            if all(isinstance(v, HplLiteral) for v in arg.values):
+                return HplLiteral.number(len(set(v.value for v in arg.values)))
         elif isinstance(arg, HplRange):
             if is_number_literal(arg.min_value) and is_number_literal(arg.max_value):
-                n = abs(int(arg.max_value.value) - int(arg.min_value.value))
-                if not arg.exclude_max:
-                    n += 1
-                if arg.exclude_min:
-                    n -= 1
-            return HplLiteral.number(n)
+                lb = int(arg.min_value.value) + (1 if arg.exclude_min else 0)
+                ub = int(arg.max_value.value) + (0 if arg.exclude_max else 1)
+                return HplLiteral.number(len(range(lb, ub)))
         elif isinstance(arg, HplLiteral) and isinstance(arg.value, str):
             return HplLiteral.number(len(arg.value))
 
